@@ -171,6 +171,10 @@ def find_item(src, mask, selector):
     lo, hi = 0, len(src)
     sel = selector.strip()
     kind = None
+    # 'nested struct NAME': an item statement inside a function body (hoisted to module level by rule R18)
+    nested = sel.startswith('nested ')
+    if nested:
+        sel = sel[len('nested '):]
     if sel.startswith('impl '):
         ob, cb = find_impl_block(src, mask, sel[5:])
         m0 = mask.rfind('impl', 0, ob)
@@ -200,7 +204,7 @@ def find_item(src, mask, selector):
         # depth relative to container must be 0 (free) or 1 (inside impl/trait)
         depth = mask.count('{', lo, mm.start()) - mask.count('}', lo, mm.start())
         want = 0 if lo == 0 and hi == len(src) else 1
-        if depth == want:
+        if depth == want or (nested and depth > want):
             cands.append(mm)
     if not cands:
         raise LostAnchor('item not found: ' + selector)
